@@ -54,8 +54,15 @@ class KTrajectoryPulseq(KTrajectoryCalculator):
             raise ValueError('We currently only support constant number of samples')
         n_k0 = int(n_samples.item())
 
+        k_max_all_directions = torch.max(torch.abs(k_traj_adc))
+
         def reshape_pulseq_traj(k_traj: torch.Tensor, encoding_size: int):
-            k_traj *= encoding_size / (2 * torch.max(torch.abs(k_traj)))
+            k_max = torch.max(torch.abs(k_traj))
+            if k_max > 1e-6 * k_max_all_directions:
+                k_traj = k_traj * (encoding_size / (2 * k_max))
+            else:
+                # no encoding along this direction: do not scale numerical noise (or divide by zero)
+                k_traj = torch.zeros_like(k_traj)
             return rearrange(k_traj, '(other k0) -> other k0', k0=n_k0)
 
         # rearrange k-space trajectory to match MRpro convention
